@@ -22,3 +22,16 @@ U([#I1,#I2],v0);MG((v1,[1],{k0:v0}),[],[]);S(p(v1,k2,add(v0,#I5))) ||| UNWIND [1
 C((v1,[0],{})>0{k0:add(#I1,#I1)}>(v2,[1],{})) ||| CREATE (v1:L0)-[:T0 {k0: (1 + 1)}]->(v2:L1)
 MG((v1,[],{k0:#I1}),[],[]) ||| MERGE (v1 {k0: 1})
 MG((v1,[],{k0:#I1}),[],[]) ||| MERGE (v1 {k0: 1})
+!reset
+# 5. label sets are sets (class of the seeded change C04-a): broad label L0 (3 nodes), narrow label L1 (1 node, same k0 as the
+#    pattern); MERGE on both labels must create, in either written order, and the second run must match the created node.
+C((_,[0],{k0:#I1})) ||| CREATE (:L0 {k0: 1})
+C((_,[0],{k0:#I2})) ||| CREATE (:L0 {k0: 2})
+C((_,[0],{k0:#I3})) ||| CREATE (:L0 {k0: 3})
+C((_,[1],{k0:#I7})) ||| CREATE (:L1 {k0: 7})
+MG((v1,[0,1],{k0:#I7}),[p(v1,k1,#I0)],[p(v1,k1,#I1)]) ||| MERGE (v1:L0:L1 {k0: 7}) ON CREATE SET v1.k1 = 0 ON MATCH SET v1.k1 = 1
+MG((v1,[1,0],{k0:#I7}),[p(v1,k1,#I0)],[p(v1,k1,#I1)]) ||| MERGE (v1:L1:L0 {k0: 7}) ON CREATE SET v1.k1 = 0 ON MATCH SET v1.k1 = 1
+MN(v1,[1,0],{})|R(v1.k0,v1.k1) ||| MATCH (v1:L1:L0) RETURN v1.k0 AS c0, v1.k1 AS c1
+MN(v1,[1],{})|R(v1.k0,v1.k1) ||| MATCH (v1:L1) RETURN v1.k0 AS c0, v1.k1 AS c1
+MP((v1,[0,1],{k0:#I7}),0,(v2,[1],{k0:#I7})) ||| MERGE (v1:L0:L1 {k0: 7})-[:T0]->(v2:L1 {k0: 7})
+MP((v1,[1,0],{k0:#I7}),0,(v2,[1],{k0:#I7})) ||| MERGE (v1:L1:L0 {k0: 7})-[:T0]->(v2:L1 {k0: 7})
